@@ -1351,6 +1351,238 @@ theorem destFree_of_preflight {t : Tree} {rs : List Ren} (hlo : LastOnly rs)
   · exact hne' h0
   · exact hne (hk.trans h0)
 
+-- the pre-flight loop as the code runs it (repo commit 01297aa added the shared-destination test) ----------------
+
+/-- a refusal of the pre-flight loop is one of the two documented ones -/
+theorem preflight_some {t : Tree} : ∀ (rs seen : List Ren) {o : Outcome},
+    preflight t seen rs = some o → o = .sharedDest ∨ o = .destExists := by
+  intro rs
+  induction rs with
+  | nil => intro seen o h; simp [preflight] at h
+  | cons r rs ih =>
+    intro seen o h
+    unfold preflight at h
+    split at h
+    · exact ih _ h
+    · split at h
+      · exact Or.inl (Option.some.inj h).symm
+      · split at h
+        · exact Or.inr (Option.some.inj h).symm
+        · exact ih _ h
+
+/-- the loop passes only if no planned destination exists (the check that was there before 01297aa) -/
+theorem preflightOk_of_none {t : Tree} : ∀ (rs seen : List Ren),
+    preflight t seen rs = none → preflightOk t rs = true := by
+  intro rs
+  induction rs with
+  | nil => intro seen _; rfl
+  | cons r rs ih =>
+    intro seen h
+    unfold preflight at h
+    unfold preflightOk
+    rw [List.all_cons, Bool.and_eq_true]
+    split at h
+    · rename_i hs
+      refine ⟨?_, ih _ h⟩
+      unfold skipRen at hs
+      rw [Bool.or_eq_true] at hs
+      rcases hs with hs | hs <;> simp [hs]
+    · split at h
+      · cases h
+      · split at h
+        · cases h
+        · rename_i hl
+          refine ⟨?_, ih _ h⟩
+          have : (lookup t r.newPath).isNone = true := by
+            cases hx : lookup t r.newPath with
+            | none => rfl
+            | some n => rw [hx] at hl; simp at hl
+          simp [this]
+
+/-- the loop passes when no planned destination exists and no two renames share a destination -/
+theorem preflight_none_of {t : Tree} : ∀ (rs seen : List Ren),
+    preflightOk t rs = true → DistinctDests rs →
+    (∀ r ∈ rs, ∀ s ∈ seen, s.newPath = r.newPath → s.path = r.path) →
+    preflight t seen rs = none := by
+  intro rs
+  induction rs with
+  | nil => intro seen _ _ _; rfl
+  | cons r rs ih =>
+    intro seen hok hdd hseen
+    unfold preflightOk at hok
+    rw [List.all_cons, Bool.and_eq_true] at hok
+    have hdd' : DistinctDests rs := fun a ha b hb => hdd a (List.mem_cons_of_mem _ ha) b (List.mem_cons_of_mem _ hb)
+    have hseen' : ∀ x ∈ rs, ∀ s ∈ seen, s.newPath = x.newPath → s.path = x.path :=
+      fun x hx => hseen x (List.mem_cons_of_mem _ hx)
+    unfold preflight
+    split
+    · exact ih _ hok.2 hdd' hseen'
+    · rename_i hs
+      have hshare : sharesDest seen r = false := by
+        unfold sharesDest
+        cases ExecFlags.sharedDestRefused
+        · rfl
+        · rw [Bool.true_and, List.any_eq_false]
+          intro s hsm
+          simp only [Bool.and_eq_true, beq_iff_eq, bne_iff_ne, ne_eq, not_and, Decidable.not_not]
+          exact fun he => hseen r (List.mem_cons_self) s hsm he
+      rw [hshare]
+      simp only [Bool.false_eq_true, if_false]
+      have hnone : (lookup t r.newPath).isSome = false := by
+        have h1 := hok.1
+        unfold skipRen at hs
+        cases hx : lookup t r.newPath with
+        | none => rfl
+        | some n =>
+          rw [hx] at h1
+          simp only [Option.isNone_some, Bool.or_false] at h1
+          exact absurd h1 hs
+      rw [hnone]
+      simp only [Bool.false_eq_true, if_false]
+      refine ih _ hok.2 hdd' ?_
+      intro x hx s hsm he
+      rcases List.mem_cons.mp hsm with rfl | hsm
+      · exact hdd s List.mem_cons_self x (List.mem_cons_of_mem _ hx) he
+      · exact hseen' x hx s hsm he
+
+/-- with the shared-destination test in the code, a plan that passes the loop has no two renames (that the loop
+    does not skip) with one destination and different sources -/
+theorem distinct_of_preflight_none {t : Tree} (hflag : ExecFlags.sharedDestRefused = true) :
+    ∀ (rs seen : List Ren), preflight t seen rs = none →
+      (∀ r ∈ rs, skipRen r = false → ∀ s ∈ seen, s.newPath = r.newPath → s.path = r.path) ∧
+      rs.Pairwise (fun a b => skipRen a = false → skipRen b = false → a.newPath = b.newPath → a.path = b.path) := by
+  intro rs
+  induction rs with
+  | nil => intro seen _; exact ⟨fun _ h => (by cases h), List.Pairwise.nil⟩
+  | cons r rs ih =>
+    intro seen h
+    unfold preflight at h
+    split at h
+    · rename_i hs
+      obtain ⟨h1, h2⟩ := ih _ h
+      refine ⟨?_, List.Pairwise.cons ?_ h2⟩
+      · intro x hx hxs
+        rcases List.mem_cons.mp hx with rfl | hx
+        · rw [hs] at hxs; cases hxs
+        · exact h1 x hx hxs
+      · intro b _ ha; rw [hs] at ha; cases ha
+    · split at h
+      · cases h
+      · rename_i hs hsh
+        split at h
+        · cases h
+        · obtain ⟨h1, h2⟩ := ih _ h
+          have hsh' : ∀ s ∈ seen, s.newPath = r.newPath → s.path = r.path := by
+            intro s hsm he
+            unfold sharesDest at hsh
+            rw [hflag, Bool.true_and] at hsh
+            have hf : seen.any (fun s => s.newPath == r.newPath && s.path != r.path) = false := by
+              simpa using hsh
+            have := List.any_eq_false.mp hf s hsm
+            simp only [Bool.and_eq_true, beq_iff_eq, bne_iff_ne, ne_eq, not_and, Decidable.not_not] at this
+            exact this he
+          refine ⟨?_, List.Pairwise.cons ?_ h2⟩
+          · intro x hx hxs s hsm he
+            rcases List.mem_cons.mp hx with rfl | hx
+            · exact hsh' s hsm he
+            · exact h1 x hx hxs s (List.mem_cons_of_mem _ hsm) he
+          · intro b hb _ hbs he
+            exact h1 b hb hbs r List.mem_cons_self he
+
+theorem pairwise_forall_of_symm {α : Type _} {R : α → α → Prop} (hsym : ∀ a b, R a b → R b a) :
+    ∀ {l : List α}, l.Pairwise R → ∀ a ∈ l, ∀ b ∈ l, a ≠ b → R a b := by
+  intro l
+  induction l with
+  | nil => intro _ a ha; cases ha
+  | cons x xs ih =>
+    intro h a ha b hb hne
+    rw [List.pairwise_cons] at h
+    rcases List.mem_cons.mp ha with hax | ha'
+    · rcases List.mem_cons.mp hb with hbx | hb'
+      · exact absurd (hax.trans hbx.symm) hne
+      · rw [hax]; exact h.1 b hb'
+    · rcases List.mem_cons.mp hb with hbx | hb'
+      · rw [hbx]; exact hsym _ _ (h.1 a ha')
+      · exact ih h.2 a ha' b hb' hne
+
+/-- the second half of `GDestFree` is what the shared-destination test of the pre-flight loop checks (together with
+    the exists test for a destination that is the source of an identity rename) -/
+theorem siblingDests_of_preflight_none {t : Tree} {rs : List Ren} (hflag : ExecFlags.sharedDestRefused = true)
+    (hlo : LastOnly rs) (hk : GKindsOk t rs) (hp : preflight t [] rs = none) : SiblingDestsDistinct rs := by
+  intro r hr r' hr' hne hdl hlast
+  obtain ⟨hr1, hr2, hr3⟩ := hlo r hr
+  obtain ⟨hr1', hr2', hr3'⟩ := hlo r' hr'
+  have heq : r'.newPath = r.newPath := by
+    obtain ⟨a, ha⟩ := eq_dropLast_snoc r.newPath hr2
+    obtain ⟨c, hc⟩ := eq_dropLast_snoc r'.newPath hr2'
+    rw [ha, hc, List.getLast?_concat, List.getLast?_concat] at hlast
+    rw [ha, hc, hr3, hr3', hdl, Option.some.inj hlast]
+  have hok := preflightOk_of_none _ _ hp
+  unfold preflightOk at hok
+  rw [List.all_eq_true] at hok
+  have hempty : ∀ x : Ren, x.newPath ≠ [] → x.newPath.isEmpty = false := by
+    intro x hx; cases hxx : x.newPath with
+    | nil => exact absurd hxx hx
+    | cons _ _ => rfl
+  -- a rename the loop skips is an identity rename
+  have hskip : ∀ x : Ren, x.newPath ≠ [] → skipRen x = true → x.newPath = x.path := by
+    intro x hx hs
+    unfold skipRen at hs
+    rw [hempty x hx, Bool.false_or] at hs
+    exact beq_iff_eq.mp hs
+  -- a destination that is an existing source cannot pass the exists test
+  have hocc : ∀ x ∈ rs, ∀ y ∈ rs, skipRen x = false → x.newPath = y.path → False := by
+    intro x hx y hy hs he
+    have h1 := hok x hx
+    unfold skipRen at hs
+    have hex := (hk y hy).1
+    rw [← he] at hex
+    cases hl : lookup t x.newPath with
+    | none => rw [hl] at hex; cases hex
+    | some n =>
+      rw [hl] at h1
+      simp only [Option.isNone_some, Bool.or_false] at h1
+      rw [h1] at hs; cases hs
+  cases hs : skipRen r with
+  | true =>
+    have hid := hskip r hr2 hs
+    cases hs' : skipRen r' with
+    | true => exact hne ((hskip r' hr2' hs').symm.trans (heq.trans hid))
+    | false => exact hocc r' hr' r hr hs' (heq.trans hid)
+  | false =>
+    cases hs' : skipRen r' with
+    | true => exact hocc r hr r' hr' hs (heq.symm.trans (hskip r' hr2' hs'))
+    | false =>
+      have hpw := (distinct_of_preflight_none hflag rs [] hp).2
+      have hrr : r' ≠ r := fun h => hne (by rw [h])
+      have := pairwise_forall_of_symm
+        (R := fun a b : Ren => skipRen a = false → skipRen b = false → a.newPath = b.newPath → a.path = b.path)
+        (fun a b h hb ha he => (h ha hb he.symm).symm) hpw r' hr' r hr hrr hs' hs heq
+      exact hne this
+
+/-- with the shared-destination test in the code (01297aa), the pre-flight loop of `apply_plan` is EXACTLY the guard
+    `GDestFree` of the composition theorems: it passes iff every destination is free and no two renamed siblings get
+    one name -/
+theorem destFree_iff_preflight_loop {t : Tree} {rs : List Ren} (hflag : ExecFlags.sharedDestRefused = true)
+    (hlo : LastOnly rs) (h3 : GTreeWF t) (hk : GKindsOk t rs) :
+    GDestFree t rs ↔ preflight t [] rs = none := by
+  constructor
+  · intro h5
+    exact preflight_none_of rs [] (preflight_of_fresh (fresh_keys h3 hlo h5)) (h5.distinctDests hlo)
+      (fun _ _ _ hs => by cases hs)
+  · intro hp
+    exact destFree_of_preflight hlo (preflightOk_of_none _ _ hp) (siblingDests_of_preflight_none hflag hlo hk hp)
+
+theorem applyPlan_pass {t : Tree} {p : Plan} (h : preflight t [] p.rens = none) :
+    applyPlan t p = applyCore t p := by
+  unfold applyPlan; rw [h]
+
+/-- the guards of the composition theorems make the pre-flight loop pass -/
+theorem preflight_of_guards {t : Tree} {rs : List Ren} (hlo : LastOnly rs) (h3 : GTreeWF t)
+    (h5 : GDestFree t rs) : preflight t [] rs = none :=
+  preflight_none_of rs [] (preflight_of_fresh (fresh_keys h3 hlo h5)) (h5.distinctDests hlo)
+    (fun _ _ _ hs => by cases hs)
+
 /-- STEP 4 looks for every path at its final location: an exact entry of `renames_performed`, else
     the last recorded prefix -/
 theorem currentPath_eq_finalPath (L : List Ren) (hord : Ord L) (f : Path) :
@@ -1380,9 +1612,8 @@ theorem applyPlan_moves (t : Tree) (p : Plan) (hlo : LastOnly p.rens) (h2 : GDis
   have hs := sameShape_contentPhase p.hunks (sortedFiles p.hunks) t
   have hr := renamePhase_sortRens (contentPhase p.hunks t (sortedFiles p.hunks)).2 p.rens hlo h2
     (h3.sameShape hs) (h4.sameShape hs) (h5.sameShape hs)
-  have hpf : preflightOk t p.rens = true := preflight_of_fresh (fresh_keys h3 hlo h5)
-  unfold applyPlan
-  rw [hpf]
+  rw [applyPlan_pass (preflight_of_guards hlo h3 h5)]
+  unfold applyCore
   cases hcp : contentPhase p.hunks t (sortedFiles p.hunks) with
   | mk o t1 =>
     rw [hcp] at hc hr
@@ -1412,9 +1643,8 @@ theorem applyPlan_moves_ok (t : Tree) (p : Plan) (hlo : LastOnly p.rens) (h2 : G
   have hs := sameShape_contentPhase p.hunks (sortedFiles p.hunks) t
   have hr := renamePhase_sortRens (contentPhase p.hunks t (sortedFiles p.hunks)).2 p.rens hlo h2
     (h3.sameShape hs) (h4.sameShape hs) (h5.sameShape hs)
-  have hpf : preflightOk t p.rens = true := preflight_of_fresh (fresh_keys h3 hlo h5)
-  unfold applyPlan
-  rw [hpf]
+  rw [applyPlan_pass (preflight_of_guards hlo h3 h5)]
+  unfold applyCore
   cases hcp : contentPhase p.hunks t (sortedFiles p.hunks) with
   | mk o t1 =>
     rw [hcp] at hc hr hread
@@ -1426,11 +1656,21 @@ theorem applyPlan_moves_ok (t : Tree) (p : Plan) (hlo : LastOnly p.rens) (h2 : G
     rw [if_pos hread]
     exact ⟨rfl, rfl⟩
 
-/-- a plan whose destination exists is refused before anything is touched -/
+/-- a plan whose destination exists is refused before anything is touched (by one of the two pre-flight tests:
+    an earlier rename of the plan may share a destination, which is found first) -/
+theorem applyPlan_preflight_refusal (t : Tree) (p : Plan) {o : Outcome} (h : preflight t [] p.rens = some o) :
+    applyPlan t p = { outcome := o, tree := t } := by
+  unfold applyPlan; rw [h]
+
 theorem applyPlan_refused (t : Tree) (p : Plan) (h : preflightOk t p.rens = false) :
-    applyPlan t p = { outcome := .destExists, tree := t } := by
-  unfold applyPlan
-  rw [h]; rfl
+    ((applyPlan t p).outcome = .destExists ∨ (applyPlan t p).outcome = .sharedDest) ∧ (applyPlan t p).tree = t := by
+  cases hp : preflight t [] p.rens with
+  | none => rw [preflightOk_of_none _ _ hp] at h; cases h
+  | some o =>
+    rw [applyPlan_preflight_refusal t p hp]
+    rcases preflight_some _ _ hp with rfl | rfl
+    · exact ⟨Or.inr rfl, rfl⟩
+    · exact ⟨Or.inl rfl, rfl⟩
 
 theorem currentPath_sortRens (rs : List Ren) (hd : Distinct rs) (hfl : FileLeaf rs) (f : Path) :
     currentPath ((sortRens rs).map (fun r => (r.path, finalPath rs r.path))) f = finalPath rs f := by
